@@ -6,7 +6,7 @@ from parglare import Grammar, GLRParser
 
 import gen
 from pcommon import *
-from enc import ForestDump, forest_alt_keys, oracle_alt_keys, skip_table
+from enc import ForestDump, forest_alt_keys, oracle_alt_keys, skip_table, glr_alt_set, parse_glr_reply
 
 MANIFEST_ENTRY = {
     "category": "proof",
@@ -16,7 +16,9 @@ MANIFEST_ENTRY = {
             "production, split into derivable pieces -- of the spans occurring top-down in some parse; chart sound and "
             "complete once saturated); the implementation forest's packed alternatives are compared with it in both "
             "directions on every explored sentence",
-    "note": "trusted: Lean kernel; glr.py's reducer is not modelled: forest "
+    "note": "trusted: Lean kernel; glr.py's reducer is modelled executably (Model/GLR.lean) and compared exactly "
+            "(acceptance and alternative sets) on every input without lexical ambiguity between heads, but no "
+            "theorem is proved about that model: forest "
             "completeness is decided by this verified-oracle comparison on the explored scope; lost derivations on "
             "hidden-left-recursive grammars are the recorded finding F-GLR-2",
     "technique": "Lean 4 proof (chart correctness, exactness of the reference SPPF) + verified-oracle comparison of packed alternatives",
@@ -71,6 +73,9 @@ def hidden_left_recursive(spec):
     return False
 
 
+GLR_FUEL = 4000
+
+
 def run_unit(u):
     res = {"evaluations": 0, "nontrivial": [], "samples": [], "violations": [], "disagreements": [],
            "stats": {"parsers": 0, "sentences": 0, "ambiguous": 0, "alts_compared": 0,
@@ -99,6 +104,7 @@ def run_unit(u):
             st["parsers"] += 1
             b = Batch()
             b.add("grammar", enc_grammar(num))
+            b.add("table", enc_table(num, p.table))
             checks = []
             for text in inputs:
                 case = {"grammar": gtxt, "tables": tname, "input": text, "features": feats}
@@ -110,7 +116,7 @@ def run_unit(u):
                     # a rejected sentence has no forest at all: every derivation is missing
                     b.add("input", enc_input(num, p, text))
                     q = b.add("sentence", CHART_FUEL)
-                    checks.append((case, None, q, None))
+                    checks.append((case, None, q, None, b.add("glr", GLR_FUEL), "syntax"))
                     continue
                 except BudgetExceeded:
                     continue        # termination is C01's
@@ -123,16 +129,31 @@ def run_unit(u):
                 st["sentences"] += 1
                 b.add("input", enc_input(num, p, text))
                 q = b.add("sppf", CHART_FUEL, 1)
-                checks.append((case, d, q, skip_table(p, text)))
+                checks.append((case, d, q, skip_table(p, text), b.add("glr", GLR_FUEL), glr_alt_set(num, f)))
             out = b.run()
             st["traces"] += len(checks)
-            for case, d, q, skip in checks:
+            for case, d, q, skip, qg, impl_glr in checks:
+                # the GLR driver model (Model/GLR.lean) against the implementation: acceptance and the exact
+                # set of packed alternatives, on every input where the model applies
+                mg = parse_glr_reply(out[qg])
+                if isinstance(mg, str) and mg in ("lexamb", "fuel"):
+                    bump(st, "glr_model_" + mg)
+                    model_agrees = True          # no prediction
+                else:
+                    st["glr_model_compared"] = st.get("glr_model_compared", 0) + 1
+                    model_agrees = (mg == impl_glr)
+                    if not model_agrees:
+                        only_i = sorted(impl_glr - mg)[:3] if isinstance(impl_glr, set) and isinstance(mg, set) else str(impl_glr)[:60]
+                        only_m = sorted(mg - impl_glr)[:3] if isinstance(impl_glr, set) and isinstance(mg, set) else str(mg)[:60]
+                        res["disagreements"].append({"case": case, "what": "GLR driver model differs from GLRParser",
+                                                     "impl": str(only_i)[:300], "model": str(only_m)[:300]})
                 if d is None:
                     if out[q] == "sentence 1":
                         v = {"kind": "sentence-rejected-no-forest", "case": case}
                         if spec.exhaustive:
                             v["fingerprint"] = h16(["F-GLR-1", gtxt, tname, strip_layout(case["input"])])
-                        elif "nullable" in feats:
+                        elif "nullable" in feats and model_agrees:
+                            # the loss is the one the model of the pinned reducer predicts
                             v["attribution"] = "glr-nullable-loss"
                         res["violations"].append(v)
                     continue
@@ -161,7 +182,7 @@ def run_unit(u):
                     if spec.exhaustive:
                         v["fingerprint"] = h16(["F-GLR-2", gtxt, tname, strip_layout(case["input"]),
                                                 canon_keys(missing, case["input"])])
-                    elif "nullable" in feats:
+                    elif "nullable" in feats and model_agrees:
                         v["attribution"] = "glr-nullable-loss"
                     res["violations"].append(v)
                 if extra:
